@@ -14,7 +14,9 @@ D(s) == s   \* phones are digit sequences
 Phones13 == { <<7>>, <<1, 3, 8, 0, 0, 0, 0, 0, 0, 0, 1>>, <<1, 2, 3, 4, 5, 6, 7, 8, 9, 0, 1, 2>>, <<0>>, <<0, 0, 0, 0, 0, 0, 0, 0, 0, 0, 0, 0>>,
               <<7, 8, 0, 4>>, <<7, 8, 0, 7>>, <<9, 9, 9, 9, 9, 9, 9, 9, 9, 9, 9, 9>> }     \* 7804 / 7807: template checksum 7E / 7D
 Phones19 == Phones13 \cup { <<1, 2, 3, 4, 5, 6, 7, 8, 9, 0, 1, 2, 3>>, <<1, 2, 3, 4, 5, 6, 7, 8, 9, 0, 1, 2, 3, 4, 5, 6, 7, 8, 9>>,
-                            <<1, 2, 3, 4, 5, 6, 7, 8, 9, 0, 1, 2, 3, 4, 5, 6, 7, 8, 9, 0>>, <<3, 8, 0, 2>>, <<3, 8, 0, 1>> }
+                            <<1, 2, 3, 4, 5, 6, 7, 8, 9, 0, 1, 2, 3, 4, 5, 6, 7, 8, 9, 0>>, <<3, 8, 0, 2>>, <<3, 8, 0, 1>>,
+                            \* twenty digits beyond 2^64 - 1 = 18446744073709551615 (a phone is a digit string, not a machine integer)
+                            <<1, 8, 4, 4, 6, 7, 4, 4, 0, 7, 3, 7, 0, 9, 5, 5, 1, 6, 1, 6>>, [i \in 1..20 |-> 9] }
 Pad(d, n) == [i \in 1..(n - Len(d)) |-> 0] \o d
 Bcd(d) == [i \in 1..(Len(d) \div 2) |-> d[2 * i - 1] * 16 + d[2 * i]]
 PhoneBytes(ver, d) == Bcd(Pad(d, IF ver = 3 THEN 20 ELSE 12))
